@@ -6,6 +6,8 @@ same two methods of the working tree; oracle = vf.oracles.lines.
 """
 from __future__ import annotations
 
+import os
+
 import io
 import random
 
@@ -191,6 +193,42 @@ def main(rec):
                  sample=(e["line_samples"][0] if e["line_samples"] and len(rec.samples) < 2 else None))
         for mech, detail in e["line_violations"]:
             rec.violation(mech, detail, sp)
+    # (a2) user text is not layout input: lines of a declaration-level splicer (documented: copied into the wrapper) that
+    # contain break hints, trailing '+' or exceed the line length must come out character for character
+    from ..libgen import gen
+    import copy as _copy
+    USER = {"f": ["vf_u1 = 1 +", "vf_u2 = 'tab\there'", "vf_u3 = '" + "a b c " * 30 + "\ttail'", "vf_u4 = [1, 2, &", "         3]"],
+            "c": ["int\tvf_t = 3;", "vf_z = vf_a ? vf_b : vf_c; // trailing +", "vf_s = \"" + "word " * 40 + "\tend\";"]}
+    USER["py"] = USER["c"]
+    ulibs = [x for x in gen.libraries(thorough, count=(12 if thorough else 4), salt="c13user") if x[0].startswith("gmix")][: (12 if thorough else 4)]
+    uspecs = []
+    for name, d, meta in ulibs:
+        d = _copy.deepcopy(d)
+        ents = [e for e in d["declarations"] if "(" in e.get("decl", "") and not e["decl"].lstrip().startswith(("class", "struct", "enum", "typedef", "namespace", "template"))]
+        for e in ents[:3]:
+            e["splicer"] = {k: list(v) for k, v in USER.items()}
+        sp = gen.spec_for(d, name + "+inline-splicers")
+        sp["monitors"] = ["lines"]
+        sp["user_decls"] = len(ents[:3])
+        uspecs.append(sp)
+    ures = pool.run_cases("vf.shroudrun", uspecs, timeout=300)
+    for sp, r in zip(uspecs, ures):
+        if workloads.bad_run(rec, sp, r) or not sp["user_decls"]:
+            continue
+        outlines = {}
+        for rel, text in r["outputs"].items():
+            if rel.endswith((".json", ".log", ".yaml", ".txt")):
+                continue
+            lang = "f" if rel.endswith((".f", ".F", ".f90")) else ("py" if os.path.basename(rel).startswith("py") else "c")
+            outlines.setdefault(lang, set()).update(x.strip() for x in text.split("\n"))
+        for lang, lines in USER.items():
+            if not any(ln.strip().startswith("vf_") or "vf_t" in ln for ln in outlines.get(lang, ())):
+                continue            # that wrapper is not generated for this library
+            for ln in lines:
+                rec.count("user_splicer_lines_checked")
+                if ln.strip() not in outlines.get(lang, ()):
+                    rec.violation("user-splicer-line-altered-by-layout-directives:%s" % lang,
+                                  "%s: the line %r of a declaration-level %s splicer does not appear unchanged in the output" % (sp["name"], ln, lang), sp)
     # (b) fuzz
     nchunks = 64 if thorough else 16
     per = 80000 if thorough else 12500
